@@ -918,6 +918,8 @@ impl<'a> Gen<'a> {
                         continue;
                     }
                     let name = match last_segment(n) {
+                        // a quoted name is exact: the last segment in quotes names no import
+                        Some(seg) if self.src.chance(6) => ArgName::Str(seg.to_string()),
                         Some(seg) if self.src.chance(60) => ArgName::Ident(seg.to_string()),
                         None if !n.contains(':') && self.src.chance(70) => ArgName::Ident(n.clone()),
                         _ => ArgName::Str(n.clone()),
